@@ -11,7 +11,8 @@ def abs_layout(rng, unit=None):
     mixed = unit is None and rng.random() < 0.3          # absolute and relative lengths side by side in one layout
     def v(hi):
         uu = rng.choice(UNITS) if mixed and rng.random() < 0.5 else u
-        return "%s%s" % (rng.choice([0, 1, 4, 10, 36, 64] if uu != "%" else [0, 5, 10, 25]), uu)
+        # 147.2 px of 640 and 75.6 px of 360 are percentages a hair below a whole number in floating point
+        return "%s%s" % (rng.choice([0, 1, 4, 10, 36, 64, 147.2, 75.6] if uu == "px" else [0, 1, 4, 10, 36, 64] if uu != "%" else [0, 5, 10, 25]), uu)
     d = {"origin": [v(1), v(0)]}
     if rng.random() < 0.5:
         d["extent"] = [v(1), v(0)]
@@ -63,6 +64,13 @@ def run(chk):
             if rng.random() < 0.5:
                 L["extent"] = rng.choice([[r_, a_], [a_, r_], ["50%", "20%"]])
             opts = dict(rng.choice([{}, {"video_width": 640, "video_height": 360}]), relativize=False)
+            if rng.random() < 0.5:
+                opts["fit_to_screen"] = False
+        if i % 13 == 6:
+            # lengths whose percentage is, in floating point, a hair below a whole number (147.2 px of 640 = 22.999...96 %)
+            writer = rng.choice(["dfxp", "sami"]); level = rng.choice(["language", "caption"])
+            L = {"origin": ["147.2px", "75.6px"], "padding": ["75.6px", "75.6px", "147.2px", "147.2px"]}
+            opts = {"video_width": 640, "video_height": 360}
             if rng.random() < 0.5:
                 opts["fit_to_screen"] = False
         force_second = False
@@ -149,11 +157,21 @@ def run(chk):
             chk.count("layout_not_written_by_this_writer")      # e.g. a set-level layout in DFXP, non-padding parts in SAMI
         elif relativize and absolute and not must_refuse and written_somewhere and writer != "webvtt":
             # exact percentages of the origin (DFXP) / start margin (SAMI), two decimals
-            from pycaption.geometry import Size
             def pct(tok, hor):
-                z = Size.from_string(tok)
-                r = z.as_percentage_of(video_width=opts.get("video_width")) if hor else z.as_percentage_of(video_height=opts.get("video_height"))
-                return str(r)
+                """the property's arithmetic on exact rationals (not the library's): px*100/dimension, 1em = 16px, 1pt = 4/3 px,
+                a 32 x 15 cell grid; two decimals, trailing zeros and the point dropped"""
+                m_ = re.fullmatch(r"([0-9.]+)(px|em|pt|c|%)", tok)
+                v_, u_ = Fraction(m_.group(1)), m_.group(2)
+                dim_ = opts.get("video_width") if hor else opts.get("video_height")
+                if u_ == "%":
+                    q_ = v_
+                elif u_ == "c":
+                    q_ = v_ * 100 / (32 if hor else 15)
+                else:
+                    q_ = v_ * {"px": 1, "em": 16, "pt": Fraction(4, 3)}[u_] * 100 / dim_
+                n_ = round(q_ * 100)            # hundredths, half to even
+                s_ = "%d" % (n_ // 100) if n_ % 100 == 0 else ("%d.%02d" % (n_ // 100, n_ % 100)).rstrip("0")
+                return s_ + "%"
             if writer == "dfxp":
                 want = "%s %s" % (pct(L["origin"][0], True), pct(L["origin"][1], False))
                 if want not in vals:
